@@ -197,7 +197,10 @@ def gen_dataset(rng, tier, kind='vcf', full=False, npop=None):
         gts = []
         for (name, pop) in samples:
             if rng.random() < miss:
-                al = [9, 9] if rng.random() < 0.85 else [9, int(rng.random() < q)]
+                # no call at all, or a HALF call with the missing allele in either position (`./1`, `0/.`): such an individual is
+                # not completely genotyped (it cannot be drawn when sub-sampling) although one of its chromosomes is called
+                u = rng.random(); x = int(rng.random() < q)
+                al = [9, 9] if u < 0.7 else [9, x] if u < 0.85 else [x, 9]
             else:
                 al = [int(rng.random() < q), int(rng.random() < q)]
             gts.append(al)
@@ -322,7 +325,7 @@ def sample_text(ds, site, k):
     if sep == 'mixed': sep = '/|'[(site['pos'] + 3 * k) % 2]
     gt = gt_text(site['gts'][k], sep)
     fmt = ds['fmt'].split(':')
-    if ds.get('trim') and fmt[0] == 'GT' and site['gts'][k] == [9, 9]:
+    if ds.get('trim') and fmt[0] == 'GT' and all(a == 9 for a in site['gts'][k]):
         return gt                                                            # VCF: trailing fields of a sample may be dropped ("./." for GT:AD:DP)
     nod = site['nodata'][k]
     style = site.get('dpstyle')
@@ -1060,6 +1063,7 @@ def check_subsample(chk, ctx, ds, vcf, pop, pop_names_all, codes):
                 lo = sum(alts[:sub[p]]); hi = sum(alts[len(alts) - sub[p]:])
                 if not (lo <= c[1] <= hi):
                     chk.fail('make_data_dict_vcf:subsample:range', 'SNP %s: %d ALT calls cannot come from %d of the complete genotypes' % (k, c[1], sub[p]), inp); return
+    subsample_exact(chk, ds, filt, sub, rec, dd, inp, '')
     chk.stat('subsample:kept=%s' % ('none' if not dd else 'all' if len(dd) == len(ds['sites']) else 'some'))
     # ---- K: the model replays the recorded draws
     if have_driver(ctx):
@@ -1088,6 +1092,28 @@ def check_subsample(chk, ctx, ds, vcf, pop, pop_names_all, codes):
                     chk.fail('from_data_dict:subsample:raises:%s' % type(e).__name__, 'from_data_dict on the sub-sampled dictionary raises %r' % (e,), inp)
         else:
             kbad(chk, 'subsample', ds, impl_e, out, None, at)
+
+def subsample_exact(chk, ds, filt, sub, rec, dd, inp, tag):
+    """the sub-sampled dictionary against the statement with the recorded draws: every draw is `sub[pop]` distinct individuals out of
+    EXACTLY the completely genotyped ones of that population on that line (an individual is completely genotyped iff none of the
+    alleles of its GT is missing and its depth does not say 'no reads'), every chromosome of a drawn individual is counted once, a
+    line is kept iff every requested population has enough such individuals.  Returns True if nothing was found."""
+    for a, size, repl, r in rec:
+        if list(a) != list(range(len(a))):
+            chk.fail('make_data_dict_vcf:subsample:pool' + tag, 'the individuals offered to a draw are not numbered 0..n-1: %r' % (a,), inp); return False
+    ent, used, problem = oracle_subsampled(ds, filt, sub, [(len(a), size, repl, r) for a, size, repl, r in rec])
+    if problem is None and used != len(rec):
+        problem = '%d draws were made, the lines and populations with enough completely genotyped individuals account for %d' % (len(rec), used)
+    if problem:
+        chk.fail('make_data_dict_vcf:subsample:pool' + tag, 'sub-sampling does not draw among exactly the completely genotyped individuals (no allele of the GT missing): ' + problem, inp); return False
+    if set(ent.keys()) != set(dd.keys()):
+        chk.fail('make_data_dict_vcf:subsample:keys' + tag, 'SNPs kept under sub-sampling are not those with enough completely genotyped individuals in every population (%d kept, %d expected; e.g. %s)'
+                 % (len(dd), len(ent), sorted(set(ent.keys()) ^ set(dd.keys()))[:3]), inp); return False
+    for k, e in ent.items():
+        got = {p: tuple(int(x) for x in dd[k]['calls'].get(p, ())) for p in e['counts']}
+        if got != e['counts']:
+            chk.fail('make_data_dict_vcf:subsample:counts' + tag, 'SNP %s: calls %r; the chromosomes of the drawn individuals (each counted once) are %r' % (k, got, e['counts']), inp); return False
+    return True
 
 def as_dict(items):
     """a dictionary argument from its (key, value) pairs, in that insertion order (older replay files hold a dict)"""
@@ -2170,6 +2196,206 @@ def check_trim_dataset(chk, ctx, ds):
     finally:
         shutil.rmtree(d, ignore_errors=True)
 
+MULTI_ALT = ['C,G', 'A,T', 'G,C,T', 'T,*', 'A,<DEL>', 'c,g']
+def gen_gt_dataset(rng, tier):
+    """every shape a GT field can take, in both branches of the reader: diploid calls, HALF calls with the missing allele in either
+    position (`0/.`, `./1`, `.|0`), haploid calls (`0`, `1`, `.`: males on X, mitochondria), polyploid calls (`0/1/1`, `1|.|0`, `././.`),
+    `/` and `|` mixed within a line, samples whose depth says 'no reads' although a GT is written, trailing fields dropped for samples
+    without any call, and multi-allelic lines (never SNP lines) whose genotypes carry allele indices >= 2."""
+    ds = gen_dataset(rng, tier, kind='gt')
+    ds['fmt'] = 'GT' if rng.random() < 0.35 else str(rng.choice(['GT:DP', 'DP:GT', 'GT:AD:DP', 'GT:GQ', 'GQ:GT', 'GT:GQ:PL']))
+    ds['trim'] = bool(ds['fmt'].startswith('GT:') and rng.random() < 0.5)
+    ds['sep'] = 'mixed' if rng.random() < 0.6 else str(rng.choice(['/', '|']))
+    has_dp = 'DP' in ds['fmt'].split(':')
+    n = len(ds['samples'])
+    ploidy = [int(rng.choice([2, 2, 2, 2, 1, 3, 4])) if rng.random() < 0.5 else 2 for _ in range(n)]
+    pmiss = float(rng.choice([0.1, 0.3, 0.5]))
+    for s in ds['sites']:
+        q = float(rng.choice([0.1, 0.5, 0.9]))
+        s['dpstyle'] = 'zero' if rng.random() < 0.6 else 'dot'
+        for k in range(n):
+            pl = ploidy[k] if rng.random() < 0.9 else int(rng.choice([1, 2, 3]))
+            al = [int(rng.random() < q) for _ in range(pl)]
+            u = rng.random()
+            if u < pmiss * 0.5:
+                al = [9] * pl
+            elif u < pmiss:
+                m = [bool(rng.random() < 0.5) for _ in range(pl)]
+                if not any(m): m[int(rng.integers(pl))] = True
+                if all(m) and pl > 1: m[int(rng.integers(pl))] = False
+                al = [9 if mm else a for a, mm in zip(al, m)]
+            s['gts'][k] = al
+            s['nodata'][k] = bool(has_dp and rng.random() < 0.08)
+    span = ds['span']; chroms = sorted(set(s['chrom'] for s in ds['sites']))
+    for j in range(int(rng.integers(1, 5))):
+        ref = str(rng.choice(list(BASES)))
+        gts = [[int(rng.choice([0, 1, 2, 3, 2, 9])) for _ in range(ploidy[k])] for k in range(n)]
+        ds['sites'].insert(int(rng.integers(0, len(ds['sites']) + 1)),
+                           dict(chrom=chroms[j % len(chroms)], pos=2 * span + 7 + j, ref=ref, alt=str(rng.choice(MULTI_ALT)), filt='PASS', aa=ref, aakey='AA',
+                                info=['AA=%s' % ref], gts=gts, nodata=[False] * n, dpstyle=None, nonsnp=True))
+    P = len(ds['pops'])
+    par = ds['params']
+    # requests: a random one, and ALL individuals of every population (then both branches of the reader must agree wherever the
+    # sub-sampling one keeps the line)
+    req = {}
+    for p in range(P):
+        if rng.random() < 0.85 or not req: req[ds['pops'][p]] = int(rng.integers(1, max(2, ds['ndip'][p] // 2 + 1)))
+    items = [[k, req[k]] for k in req]
+    if len(items) > 1 and rng.random() < 0.6: items = [items[int(i)] for i in rng.permutation(len(items))]
+    par['subsample'] = items
+    par['subsample_all'] = [[p, nn] for p, nn in zip(ds['pops'], ds['ndip'])]
+    return ds
+
+def gt_class(al):
+    if all(a == 9 for a in al): return 'nocall'
+    if 9 in al: return 'half' if len(al) == 2 else 'partial'
+    return 'called'
+
+def run_subsample(M, vcf, pop, sub, filt, seed):
+    """make_data_dict_vcf(subsample=…) with the draws recorded at numpy.random.choice: (dictionary, [(candidates, size, replace, drawn)])"""
+    rec = []
+    orig = np.random.choice
+    def choice(a, size=None, replace=True, p=None):
+        r = orig(a, size, replace=replace)
+        rec.append(([int(x) for x in a], int(size), bool(replace), [int(x) for x in np.atleast_1d(r)]))
+        return r
+    np.random.seed(seed % (2 ** 32))
+    np.random.choice = choice
+    try:
+        return M.make_data_dict_vcf(vcf, pop, subsample=dict(sub), filter=filt), rec
+    finally:
+        np.random.choice = orig
+
+def sample_fields(ds, site, k):
+    """(GT, AD, DP) texts of one sample column as a reader finds them under the FORMAT of the line: None = FORMAT has no such field, or
+    the sample's trailing fields were dropped"""
+    fmt = ds['fmt'].split(':'); fields = sample_text(ds, site, k).split(':')
+    def get(name):
+        return fields[fmt.index(name)] if name in fmt and fmt.index(name) < len(fields) else None
+    return get('GT'), get('AD'), get('DP')
+
+def samples_wire(ds, site):
+    def opt(t): return 'x' if t is None else hexs(t)
+    out = []
+    for k, (nm, p) in enumerate(ds['samples']):
+        gt, ad, dp = sample_fields(ds, site, k)
+        out.append('%s:%s:%s:%s' % ('-' if p is None else ds['pops'].index(p), hexs(gt), opt(ad), opt(dp)))
+    return '+'.join(out)
+
+def check_gtpool(chk, ctx, ds, filt, sub, rec, sinp):
+    """K on the sample texts as written (generated `vcfSubDrawable`): the number of individuals offered to every draw of the real run, line
+    by line and population by population, against the model's loop over the GT / DP texts"""
+    lines = [s for s in ds['sites'] if is_snp_line(s, filt)]
+    if not lines: return
+    want = '+'.join('%d:%d' % (ds['pops'].index(p), k) for p, k in sub.items())
+    out = ask(ctx, 'gtpool %s %s' % (want, ';'.join(samples_wire(ds, s) for s in lines)))
+    impl = [len(a) for a, size, repl, r in rec]
+    if out.startswith('ok '):
+        model = [] if out[3:].strip() == '-' else [int(x) for x in out[3:].strip().split(',')]
+        if model == impl: chk.k_ok('gtpool')
+        else: kbad(chk, 'gtpool', ds, impl, model, None, sinp['at'])
+    else:
+        kbad(chk, 'gtpool', ds, impl, out[:300], None, sinp['at'])
+
+def check_gtcalls(chk, ctx, ds, dd, filt, present):
+    """K on the sample texts (generated `vcfNoSubSkip`, stride and tokens): the calls of the branch without sub-sampling, line by line"""
+    lines = [s for s in ds['sites'] if is_snp_line(s, filt)]
+    if not lines or not present: return
+    out = ask(ctx, 'gtcalls %s %s' % (','.join(str(ds['pops'].index(p)) for p in present), ';'.join(samples_wire(ds, s) for s in lines)))
+    impl = {}
+    if out.startswith('ok '):
+        model = {}
+        for s, t in zip(lines, out[3:].strip().split(';')):
+            model['%s_%d' % (s['chrom'], s['pos'])] = [tuple(int(x) for x in u.split(':')) for u in t.split('+')]       # a later line replaces
+        impl = {k: [tuple(int(x) for x in v['calls'].get(p, (-1, -1))) for p in present] for k, v in dd.items()}
+        if model == impl: chk.k_ok('gtcalls')
+        else:
+            diff = [k for k in list(model) + list(impl) if model.get(k) != impl.get(k)][:3]
+            kbad(chk, 'gtcalls', ds, {k: impl.get(k) for k in diff}, {k: model.get(k) for k in diff}, None, dict(stage='genotypes'))
+    else:
+        kbad(chk, 'gtcalls', ds, None, out[:300], None, dict(stage='genotypes'))
+
+def check_gt_dataset(chk, ctx, ds):
+    """the genotype-token decisions of BOTH branches of make_data_dict_vcf.  Statement: without sub-sampling every called chromosome of a
+    sample that has reads is counted once (REF index 0, ALT index 1), a missing allele is not counted, whatever the ploidy, the phasing
+    separator and the position of the missing allele; with sub-sampling an individual can be drawn iff NO allele of its GT is missing
+    (and its depth does not say 'no reads'), exactly the requested number of such individuals is used per SNP and population, each of
+    their chromosomes counted once; asking for all individuals gives, on the lines that are kept, the counts of the other branch."""
+    dadi = ctx['dadi']; M = dadi.Misc
+    codes = Codes()
+    d = tempfile.mkdtemp(prefix='c13_')
+    try:
+        vcf, pop = render_vcf(ds, d)
+        par = ds['params']; filt = par['filter']; pops = ds['pops']
+        inp = dict(kind=ds['kind'], dataset=ds, at=dict(stage='genotypes'))
+        snp_sites = [s for s in ds['sites'] if is_snp_line(s, filt)]
+        seen = {}
+        for s in snp_sites:
+            for (nm, p), al in zip(ds['samples'], s['gts']):
+                if p is None: continue
+                c = (len(al) if len(al) < 4 else 4, gt_class(al), (al.index(9) == 0) if 9 in al and gt_class(al) != 'nocall' else None)
+                seen[c] = seen.get(c, 0) + 1
+        for (pl, cl, first), cnt in seen.items():
+            chk.stat('gt:ploidy=%d:%s%s' % (pl, cl, '' if first is None else ':missing-first' if first else ':missing-later'), cnt)
+        chk.stat('gt:lines-with-allele-index>=2', sum(1 for s in ds['sites'] if any(a not in (0, 1, 9) for al in s['gts'] for a in al)))
+        chk.l3(('gt', ds['fmt'], ds['sep'], bool(ds.get('trim')), tuple(sorted(k[:2] for k in seen))[:6]))
+        # ---- branch without sub-sampling
+        try:
+            dd = M.make_data_dict_vcf(vcf, pop, filter=filt)
+        except Exception as e:
+            chk.fail('make_data_dict_vcf:genotypes:raises:%s' % type(e).__name__, 'make_data_dict_vcf raises %r (FORMAT %s, genotypes of mixed ploidy / half calls)' % (e, ds['fmt']), inp); return
+        od = oracle_entries_vcf(ds, filt)
+        if sorted(dd.keys()) != sorted(od.keys()):
+            chk.fail('make_data_dict_vcf:genotypes:keys', 'the data dictionary does not hold exactly the biallelic SNP lines (%d parsed, %d expected; multi-allelic lines are never SNP lines)' % (len(dd), len(od)), inp); return
+        for k, e in od.items():
+            got = {p: tuple(int(x) for x in dd[k]['calls'].get(p, ())) for p in e['counts']}
+            if got != e['counts']:
+                chk.fail('make_data_dict_vcf:genotypes:counts', 'SNP %s: calls %r; counting every called chromosome once gives %r' % (k, got, e['counts']), inp); break
+        present = [p for p in pops if any(s[1] == p for s in ds['samples'])]
+        if have_driver(ctx):
+            out = ask(ctx, 'dd_vcf %d %s %s' % (filt, ','.join(str(pops.index(p)) for p in present) if present else '-', sites_wire(ds, codes)))
+            ie = impl_entries(dd, present, codes)
+            if out.startswith('ok ') and entries_equal(parse_snps(out[3:]), ie): chk.k_ok('dd_vcf:gt')
+            else: kbad(chk, 'dd_vcf:gt', ds, ie, out[:2000], None, dict(stage='genotypes'))
+            check_gtcalls(chk, ctx, ds, dd, filt, present)
+        if present != pops: return
+        # ---- sub-sampling branch: a random request, then all individuals
+        for which in ('subsample', 'subsample_all'):
+            sub = as_dict(par[which])
+            sinp = dict(kind=ds['kind'], dataset=ds, at=dict(stage='genotypes', request=which, subsample=par[which]))
+            try:
+                dds, rec = run_subsample(M, vcf, pop, sub, filt, par['subseed'])
+            except Exception as e:
+                chk.fail('make_data_dict_vcf:subsample:genotypes:raises:%s' % type(e).__name__, 'make_data_dict_vcf(subsample=%r) raises %r (FORMAT %s)' % (sub, e, ds['fmt']), sinp); continue
+            chk.l3(('gt-sub', which, len(sub), len(dds) > 0, len(dds) < len(od)))
+            chk.stat('gt:%s:kept=%s' % (which, 'none' if not dds else 'all' if len(dds) == len(od) else 'some'))
+            ok = subsample_exact(chk, ds, filt, sub, rec, dds, sinp, ':genotypes')
+            names = [p for p in pops if p in sub]
+            if which == 'subsample_all':
+                # every individual is asked for: a line is kept iff every individual of every population is completely genotyped,
+                # and then there is nothing to choose -- the counts are those of the branch without sub-sampling
+                for k, v in dds.items():
+                    if k not in dd: continue
+                    a = {p: tuple(int(x) for x in v['calls'].get(p, ())) for p in names}
+                    b = {p: tuple(int(x) for x in dd[k]['calls'].get(p, ())) for p in names}
+                    if a != b:
+                        chk.fail('make_data_dict_vcf:subsample:all-individuals', 'SNP %s: sub-sampling ALL individuals gives calls %r, the same file read without sub-sampling gives %r' % (k, a, b), sinp); break
+            if have_driver(ctx):
+                selidx = [pops.index(p) for p in names]
+                want = '+'.join('%d:%d' % (pops.index(p), sub[p]) for p in sub if p in names)
+                draws = ';'.join(','.join(map(str, r[3])) if r[3] else '-' for r in rec) if rec else '-'
+                out = ask(ctx, 'subsample %d %s %s %s %s' % (filt, want, draws, ','.join(map(str, selidx)), sites_wire(ds, codes)))
+                impl_e = impl_entries(dds, names, codes)
+                if out.startswith('ok '):
+                    body, left = out[3:].rsplit(' ', 1)
+                    if entries_equal(parse_snps(body), impl_e) and int(left) == 0: chk.k_ok('subsample:gt')
+                    else: kbad(chk, 'subsample:gt', ds, impl_e, dict(entries=parse_snps(body), unused_draws=int(left)), None, sinp['at'])
+                else:
+                    kbad(chk, 'subsample:gt', ds, impl_e, out[:2000], None, sinp['at'])
+                check_gtpool(chk, ctx, ds, filt, sub, rec, sinp)
+    finally:
+        shutil.rmtree(d, ignore_errors=True)
+
 def gen_dp_dataset(rng, tier):
     ds = gen_dataset(rng, tier, kind='dp')
     ds['fmt'] = str(rng.choice(['GT:DP', 'GT:AD:DP', 'GT:DP:AD', 'GT:AD']))
@@ -2191,6 +2417,7 @@ def check_dataset(chk, ctx, ds, rng=None):
     elif k == 'full': check_full_dataset(chk, ctx, ds)
     elif k == 'dp': check_dp_dataset(chk, ctx, ds)
     elif k == 'trim': check_trim_dataset(chk, ctx, ds)
+    elif k == 'gt': check_gt_dataset(chk, ctx, ds)
 
 def run(chk, ctx):
     tier = ctx['tier']
@@ -2262,6 +2489,9 @@ def run(chk, ctx):
     rng3 = common.Rng(ctx['seed'], 'C13-trim')                # own stream, own keys (…:trailing-fields-dropped)
     for it in range(6 if tier == 'quick' else 40):
         check_dataset(chk, ctx, gen_trim_dataset(rng3, tier), rng3)
+    rng4 = common.Rng(ctx['seed'], 'C13-gt')                  # own stream: every shape of a GT field through both branches of the reader
+    for it in range(12 if tier == 'quick' else 100):
+        check_dataset(chk, ctx, gen_gt_dataset(rng4, tier), rng4)
 
 def replay(chk, ctx, data):
     inp = data.get('input', {}) or {}
